@@ -124,7 +124,11 @@ def st_case(draw):
         elif x == 1 and not (real and n in ("f", "V")):
             antisym_t.append(n)
     poly = draw(st.integers(0, 24)) == 0
-    return {"groups": groups, "targets": base["targets"],
+    retarget = None
+    if draw(st.integers(0, 2)) == 0:
+        retarget = [l for l in base["targets"] if draw(st.booleans())]
+    return {"retarget": retarget,
+            "groups": groups, "targets": base["targets"],
             "explicit": base["explicit"], "spin": base["spin"],
             "real": real, "sym_tensors": sym_t, "antisym_tensors": antisym_t,
             "poly": poly, "mseed": draw(st.integers(0, 2**31))}
@@ -267,6 +271,46 @@ def run_case(case):
             if culprit is None:
                 r.fail("not_merged_in_context",
                        f"{n_out} terms > bound {bound}: {expr} -> {out}")
+    # 5) history on one object: simplify, declare fewer target indices on
+    #    the SAME Expr (former targets become contracted), simplify again.
+    #    The result must have the value of the input under the new targets
+    #    and must not hold more terms than the result for a freshly built
+    #    Expr with those targets (otherwise alpha-equivalent terms that the
+    #    library can combine were left unmerged).
+    if case.get("retarget") is not None and not case.get("explicit") \
+            and not poly and not r.fails and expr.sympy != 0:
+        keep = [l for l in case["targets"] if l in case["retarget"]]
+        new_t = tuple(sorted(syms(keep), key=idx_key))
+        raw = expr.sympy
+        ok, _ = lib_call(r, "simplify", simplify, expr)
+        if ok:
+            ok, _ = lib_call(r, "set_target_idx", expr.set_target_idx,
+                             list(new_t))
+        if ok:
+            ok, out_b = lib_call(r, "simplify_after_set_target_idx",
+                                 simplify, expr)
+        if ok:
+            kw_f = dict(kw)
+            kw_f["target_idx"] = list(new_t)
+            ok, out_f = lib_call(r, "simplify_fresh", simplify,
+                                 Expr(raw, **kw_f))
+        if ok:
+            r.cls("retarget_history")
+            nb = 0 if out_b.sympy == 0 else len(out_b)
+            nf = 0 if out_f.sympy == 0 else len(out_f)
+            m = Model(case.get("mseed", 0) + 7, *sizes[0],
+                      spin=bool(case.get("spin")))
+            if not (evaluate(m, raw, new_t) ==
+                    evaluate(m, out_b.sympy, new_t)).all():
+                r.fail("value_after_set_target_idx",
+                       f"simplify(e); e.set_target_idx({new_t}); simplify(e)"
+                       f" for e = {Expr(raw, **kw)}: {out_b}")
+            elif nb > nf:
+                r.fail("not_merged_after_set_target_idx",
+                       f"simplify(e); e.set_target_idx({new_t}); simplify(e)"
+                       f" for e = {Expr(raw, **kw)} gives {nb} terms "
+                       f"({out_b}), a fresh Expr with these targets {nf} "
+                       f"({out_f})")
     return r
 
 
